@@ -43,6 +43,19 @@ const (
 	allocB = 256
 )
 
+// Bound for inputs whose header claims more bytes than were supplied.
+const (
+	truncA = 256 << 10
+	truncB = 6
+)
+
+func declaredLen(h *diam.Header) int {
+	if h == nil {
+		return -1
+	}
+	return int(h.MessageLength)
+}
+
 // Rendering (String, PrettyDump) is checked for panics only and only on
 // inputs up to this size: its output is legitimately super-linear in the
 // nesting depth (indentation).
@@ -217,9 +230,16 @@ func decodeAll(p *dict.Parser, wire []byte) (fail *ev.Failure, reached bool) {
 		reached = true
 	}
 	used := totalAlloc() - before
-	if bound := uint64(allocA + allocB*len(wire)); used > bound {
-		return ev.Failf("over-allocation", "decoding + re-serialising + unmarshalling + searching a %d-byte input allocated %d bytes (bound %d = %d + %d*len); ReadMessage error: %v; input starts % x",
-			len(wire), used, bound, allocA, allocB, err, clip(wire)), reached
+	bound := uint64(allocA + allocB*len(wire))
+	if hdr != nil && int(hdr.MessageLength) > len(wire) {
+		// the header claims more than was supplied: no AVP can be decoded, so nothing but read
+		// buffers proportional to the bytes that arrived may be allocated (the chunked reader
+		// needs about 3.5x; a buffer sized from the claim is 16 MiB whatever arrived)
+		bound = uint64(truncA + truncB*len(wire))
+	}
+	if used > bound {
+		return ev.Failf("over-allocation", "decoding + re-serialising + unmarshalling + searching a %d-byte input (declared message length %d) allocated %d bytes (bound %d); ReadMessage error: %v; input starts % x",
+			len(wire), declaredLen(hdr), used, bound, err, clip(wire)), reached
 	}
 	if err == nil && m != nil {
 		if f := inspectUnmeasured(m, render); f != nil {
@@ -552,6 +572,9 @@ func TestC03Constants(t *testing.T) {
 	}
 	cases = append(cases, Case{Dict: gen.DictChoice{Name: "default"}, Wire: hdr(0xFFFFFF, 257), Tags: []string{"mut:message-length", "claims-16MiB"}})
 	cases = append(cases, Case{Dict: gen.DictChoice{Name: "default"}, Wire: append(hdr(0xFFFFFF, 280), make([]byte, 100)...), Tags: []string{"mut:message-length", "claims-16MiB"}})
+	for _, supplied := range []int{1000, 64 << 10, 64<<10 + 1, 200 << 10, 1 << 20} { // 16 MiB claimed, part of it supplied
+		cases = append(cases, Case{Dict: gen.DictChoice{Name: "default"}, Wire: append(hdr(0xFFFFFF, 257), denseBytes(supplied + 20)[20:]...), Tags: []string{"mut:message-length", "claims-16MiB-partly-supplied"}})
+	}
 	for ln := 8; ln <= 12; ln++ { // V flag with every short length
 		a := refcodec.EncodeAVP(&refcodec.Node{Code: 264, Flags: 0x80, Vendor: 0x01020304, Payload: []byte("abcd")})
 		put24(a[5:], ln)
